@@ -99,18 +99,29 @@ pub fn run(out: &mut Out, seed: u64, tier: &str) {
     // line: the fresh-object oracle only.
     let mut n_large = 0usize;
     let sides: Vec<usize> = if tier == "thorough" { vec![4, 5, 6] } else { vec![5] };
+    // (sizes the changed source lines mention come first: that many atoms, or that many atom pairs)
+    let mut bigs: Vec<Mol> = vec![];
+    for n in hints().atom_counts(24, 1300) {
+        let w = library()[0].clone();
+        let mut m = Mol { name: format!("hinted-size-{}", n), zs: w.zs.clone(), xs: w.xs.iter().map(|p| [p[0] - 3.0, p[1] - 3.0, p[2] - 3.0]).collect() };
+        for q in lattice_points(n - 3, 3.6) { m.zs.push(10); m.xs.push(q); }
+        bigs.push(m);
+    }
     for side in sides {
         let w = library()[0].clone();
         let mut big = Mol { name: format!("water-box-{}", side * side * side), zs: vec![], xs: vec![] };
         for a in 0..side { for b in 0..side { for c in 0..side {
             for (z, p) in w.zs.iter().zip(w.xs.iter()) { big.zs.push(*z); big.xs.push([p[0] + 3.1 * a as f64, p[1] + 3.1 * b as f64, p[2] + 3.1 * c as f64]); }
         } } }
+        bigs.push(big);
+    }
+    for big in bigs {
         let mol = match catch(|| big.build()) { Some(x) => x, None => continue };
         for kind in ["uff", "rb"] {
             let mut used = match FF::build(kind, &mol) { Some(f) => f, None => continue };
             let a = big.points();
             let b = distort(&big, 0.05, &mut rng).points();
-            let replay = format!("{} on a box of {} waters ({} atoms, {} terms): G(A) G(A) E(A) G(B) E(B) G(A)", kind, side * side * side, big.n(), used.terms().len());
+            let replay = format!("{} on {} ({} atoms, {} terms): G(A) G(A) E(A) G(B) E(B) G(A)", kind, big.name, big.n(), used.terms().len());
             let script: [(char, &Vec<Point>); 6] = [('G', &a), ('G', &a), ('E', &a), ('G', &b), ('E', &b), ('G', &a)];
             for (k, (what, x)) in script.iter().enumerate() {
                 let mut fresh = match FF::build(kind, &mol) { Some(f) => f, None => break };
